@@ -2,7 +2,7 @@
    Statements only; proofs in Proofs/SliceProofs.v.  Integer ticks; full_score = every chord has at least one
    part and every part lasts as long as its chord (the statement's guard), durations >= 0. *)
 From ML Require Import Spec.RenderSpec.
-From ML Require Import Model.Types gen.Tables Model.Pitch Model.Rel Model.Render Model.Slice Proofs.RenderProofs Proofs.SliceProofs Proofs.SliceContent Proofs.SliceRejoin Proofs.SliceScore.
+From ML Require Import Model.Types gen.Tables Model.Pitch Model.Rel Model.Render Model.Slice Proofs.RenderProofs Proofs.SliceProofs Proofs.SliceContent Proofs.SliceZero Proofs.SliceRejoin Proofs.SliceScore.
 From Coq Require Import Lia.
 Open Scope Z_scope.
 Open Scope list_scope.
@@ -47,6 +47,18 @@ Proof. exact repeat_until_duration. Qed.
    window; a note already sounding at a becomes a continuation; every other kept note keeps pitch, kind and dynamics *)
 Theorem C12_melody_window_content : forall v t a b, positive v -> a < b -> mel_between v t a b = Some (clip_list v t a b).
 Proof. exact mel_between_content. Qed.
+
+(* ... and with zero-length notes in the part (durations >= 0): the same map, where a zero-length note is kept - unchanged - exactly
+   when it STARTS inside [a, b); one sitting on the window start belongs to the window *)
+Theorem C12_melody_window_content_zero : forall v t a b, nonneg v -> a < b -> mel_between v t a b = Some (clip0_list v t a b).
+Proof. exact mel_between_content0. Qed.
+
+Theorem C12_zero_length_note : forall a b t n, tdur n = 0 ->
+  clip0 a b t n = if (a <=? t) && (t <? b) then Some (with_dur n 0) else None.
+Proof. exact clip0_zero. Qed.
+
+Theorem C12_zero_agrees : forall v t a b, a < b -> positive v -> clip0_list v t a b = clip_list v t a b.
+Proof. intros v. exact (clip0_list_positive v). Qed.
 
 Theorem C12_kept_note : forall a b t n x, clip a b t n = Some x ->
   0 < tdur x /\ tdur x = Z.min (t + tdur n) b - Z.max t a /\ (a <= t -> tn x = tn n /\ tamp x = tamp n) /\ (t < a -> x = continuation (tdur x)).
